@@ -120,6 +120,8 @@ type fnCtx struct {
 	nquery     int
 	aborted    string
 	closures   map[string]*closureInfo
+	curFrame   *frame // call site whose callee effects are being applied (C19 write obligations)
+	curSite    string
 	freeCells  map[string]Val // captured variables (closure under verification): name -> cell address
 	top        *frame
 	exitHooks  []func(st *State, fr *frame, exceptional bool)
